@@ -11,12 +11,15 @@ NOTE = ("Trusted: Lean 4.33 kernel (axioms propext, Classical.choice, Quot.sound
 
 CLAIMS = {
     "C01": dict(
-        technique="Lean 4 theorems (walker = compositional reading) + Spec judging of the real code by an RDKit molzip join + correspondence",
-        text="Proof-level for the tree the assembly consumes (C03 theorems) and, as built so far, Spec-judged exploration of the assembly itself: "
-             "every sampled well-formed glycan is compared, as a stereo-defined molecule, with an independent RDKit construction that joins the "
-             "residues converted alone at positions found by a chemistry-level carbon numbering. The splice-algebra theorems are in progress.",
-        note="partial: the graft theorem (sem_subst_leaf) is not yet proved; carbon numbering of modified residues is checked residue by residue against "
-             "the chemistry-level rule, not proved. " + NOTE, ref="6 C01"),
+        technique="Lean 4 theorem by simulation (graft lemma over SMILES token semantics, unbounded) + a proved-sound decidable certificate evaluated on every real merge + RDKit molzip Spec judging",
+        text="Gly.Smi.graft / C01_graft: replacing a leaf marker atom of any SMILES by any closed block whose ring labels are not open there yields the "
+             "graft - atoms and ordered bond events of both parts carried over as written, one new bond (frame lemma run_embed + renaming simulation run_sim + "
+             "well-formedness invariant). C01_certified_splice proves the decidable certificate sound; the compiled Model re-plays every real merge_int "
+             "(boundary strings captured from RDKit inside merge_int), reproduces its output text-identically and certifies each splice and each sanitize step. "
+             "Independently every sampled well-formed glycan is compared as a stereo molecule with an RDKit molzip join of the residues converted alone.",
+        note="partial: RDKit's writing of the marked residue is a boundary input (its meaning is assumed to be the token semantics Smi.sem); the N-link block "
+             "'N(' child[1:] ')' is certified per instance; carbon numbering of modified residues is compared with a chemistry-level rule per residue, not proved; "
+             "two open known findings (numbering of 1-amino-ketoses and 2,6-anhydro sugars). " + NOTE, ref="6 C01, 14"),
     "C03": dict(
         technique="Lean 4 theorem by induction over the syntax tree (walker = pre-order numbering of the compositional reading) + correspondence",
         text="C03_walk_eq_denote is proved for all inputs (any depth/width, floating fragments). The Model (lexer, priority-ordered parser over the "
@@ -42,11 +45,11 @@ CLAIMS.update({
         note="partial: the string-level lemmas (balanced parentheses, no marker survives the splice, label validity) are not yet proved; RDKit's "
              "sanitisation is the validity oracle. " + NOTE, ref="6 C02"),
     "C05": dict(
-        technique="Spec judging: atom and ring balance against the residues converted alone (RDKit), over the complete residue vocabulary; Lean placeholder",
+        technique="Lean 4 corollaries of the graft lemma (atom, bond and ring-closure balance of every splice, any counting predicate) + RDKit balance over the complete residue vocabulary",
         text="Every sampled glycan's element counts (incl. H) and cyclomatic ring count are compared with the sum over its residues converted alone minus "
              "(n-1) H2O; every vocabulary residue appears as child and as parent, every alditol as reducing end.",
-        note="partial: the additive formula lemma over the splice (formula_subst_leaf) is not yet proved - the Lean obligation counted here is the "
-             "tree-shape theorem the assembly relies on. " + NOTE, ref="6 C05"),
+        note="partial: the theorems count atom tokens, bond events and ring closures of the token semantics (C05_atoms, C05_bonds_and_rings, C05_graft_balance); implicit "
+             "hydrogens are computed by RDKit in the sweep, not in Lean. " + NOTE, ref="6 C05"),
     "C06": dict(
         technique="Lean 4 theorems (edge normal form for all anomer/position texts, create resolution) + exhaustive connection forms + notation variants as molecules",
         text="C06_edge_full/condensed/short are proved for arbitrary anomer symbols and position texts; C06_notation_invariant_spec is the full-strength "
@@ -55,10 +58,10 @@ CLAIMS.update({
              "regenerated tables. All connection forms x anomer x positions are run exhaustively; random trees are rendered five ways and compared as molecules.",
         note="One open known finding (short-form linkage with a 2-ketose child). to_enantiomer as identity for the own series is checked as molecules only. " + NOTE, ref="6 C06"),
     "C07": dict(
-        technique="Spec judging: all permutations at all branching nodes give one canonical molecule; Lean theorem on the walker's child order",
+        technique="Lean 4 theorem (splices at distinct markers commute) + all permutations at all branching nodes give one canonical molecule (RDKit)",
         text="For tree shapes up to 5/6 residues every permutation at every branching node (incl. the choice of the unbracketed main chain) and random "
              "permutations of larger random trees must give the same RDKit canonical SMILES.",
-        note="partial: graftTree_perm / merge permutation theorem not yet proved. " + NOTE, ref="6 C07"),
+        note="partial: C07_splices_commute is token-level; that RDKit's boundary strings for two written orders denote the same marked molecule is checked as molecules, not proved. " + NOTE, ref="6 C07"),
     "C09": dict(
         technique="Lean 4 theorems by list induction over a model of converter.py (any conv, any argument mix) + differential runs of convert/convert_generator",
         text="C09_pairs, C09_aligned, C09_isolated, C09_failing_input_empty, C09_generator_same are proved for every per-glycan behaviour and every "
